@@ -105,12 +105,15 @@ End {name}_T.
                       mon_expr=f"{name}.mon", m0_expr=f"{name}.m0")
 
 
-def corr(name, target, *, mstep, m0, norm="(fun o => o)", describe=""):
+def corr(name, target, *, mstep, m0, norm="(fun o => o)", describe="", spec_exact=False):
     """C obligation (correspondence, not a proof): the typed hand model `mstep`/`m0` is run inside Coq
     on the same input traces as Amaranth's simulator of the real module; outputs (after `norm`) must agree
     in every cycle.  The model packs its outputs exactly like the target's declared output ports."""
     o = Obligation(name, "C-correspondence", target, "", "", [], describe)
     o.corr = (mstep, m0, norm)
+    # spec_exact: a theorem states that the model's outputs ARE the specification for every input trace, with no environment
+    # assumption; a trace on which the implementation differs from the model is then itself a failing input of the property
+    o.spec_exact = spec_exact
     return o
 
 
